@@ -733,6 +733,12 @@ func xReplayWith(tag string) func(i int, raw json.RawMessage) Result {
 			escs = append(escs, func(s string) string { return "‹" + s + "›" })
 			key = "alt:" + key
 		}
+		// a program ranging over a two-entry map is specified for one iteration order; Go picks the order at
+		// random per range statement, so such an execution is repeated until that order comes up
+		attempts := 1
+		if strings.HasPrefix(v.Tag, "map2|") {
+			attempts = 64
+		}
 		for k, r := range v.Case.Runs {
 			if k >= len(v.Results) {
 				return Result{Detail: "harness: vector has fewer results than runs"}
@@ -740,6 +746,10 @@ func xReplayWith(tag string) func(i int, raw json.RawMessage) Result {
 			w, esc := worlds[k%len(worlds)], escs[k%len(worlds)]
 			o := w.execute(r)
 			ok, kind, why := xCompare(w, v.Results[k], o, esc)
+			for a := 1; a < attempts && !ok; a++ {
+				o = w.execute(r)
+				ok, kind, why = xCompare(w, v.Results[k], o, esc)
+			}
 			if !ok {
 				sig := map[string]interface{}{"kind": kind, "tag": v.Tag, "run": k, "errclass": v.Results[k].Err.Class}
 				return Result{Sig: sig, Key: key, Observed: o, Expected: v.Results[k],
